@@ -82,8 +82,11 @@ func (b *ClassifierBackend) ClassifyLicenses(numTasks int, filenames []string, h
 	var wg sync.WaitGroup
 	analyze := func(filename string) {
 		defer func() {
-			wg.Done()
+			// Hand the task slot back before signalling completion: once the last
+			// wg.Done() has run, the goroutine below closes the task channel, and
+			// a send after that panics ("send on closed channel").
 			task <- true
+			wg.Done()
 		}()
 		if err := b.classifyLicense(filename, headers); err != nil {
 			errs <- err
